@@ -10,12 +10,13 @@ from concurrent.futures import ThreadPoolExecutor
 import harness as H
 
 MIRI_DIR = os.path.join(H.ROOT, "miri")
-BASE_FLAGS = "-Zmiri-tree-borrows -Zmiri-deterministic-floats"
+BASE_FLAGS = "-Zmiri-deterministic-floats"
+MODELS = {"tb": "-Zmiri-tree-borrows", "sb": ""}  # Stacked Borrows is Miri's default
 
 
-def _env(miri_seed, preempt):
+def _env(miri_seed, preempt, model="tb"):
     e = H.env_offline()
-    e["MIRIFLAGS"] = f"{BASE_FLAGS} -Zmiri-seed={miri_seed} -Zmiri-preemption-rate={preempt}"
+    e["MIRIFLAGS"] = f"{MODELS[model]} {BASE_FLAGS} -Zmiri-seed={miri_seed} -Zmiri-preemption-rate={preempt}".strip()
     return e
 
 
@@ -78,10 +79,11 @@ def site(stderr):
 
 
 def run_one(job, timeout):
-    scenario, wseed, a, b, mseed, preempt, features = job
+    scenario, wseed, a, b, mseed, preempt, features = job[:7]
+    model = job[7] if len(job) > 7 else "tb"
     t0 = time.time()
     try:
-        r = subprocess.run(_cmd(features, [scenario, wseed, a, b]), cwd=MIRI_DIR, env=_env(mseed, preempt),
+        r = subprocess.run(_cmd(features, [scenario, wseed, a, b]), cwd=MIRI_DIR, env=_env(mseed, preempt, model),
                            capture_output=True, text=True, timeout=timeout)
     except subprocess.TimeoutExpired:
         return {"job": job, "timeout": True, "wall": time.time() - t0, "lines": []}
@@ -111,9 +113,11 @@ def run(prop, jobs, timeout=1500):
     sums, vios = [], []
     stats = {"miri_processes": len(jobs), "miri_cpu_s": round(sum(r["wall"] for r in results), 1), "miri_errors": 0}
     for r in results:
-        scenario, wseed, a, b, mseed, preempt, features = r["job"]
+        scenario, wseed, a, b, mseed, preempt, features = r["job"][:7]
+        model = r["job"][7] if len(r["job"]) > 7 else "tb"
+        stats["aliasing_models"] = sorted(set(stats.get("aliasing_models", [])) | {model})
         base = {"engine": "miri", "scenario": scenario, "seed": wseed, "run": a, "from": a, "to": b,
-                "miri_seed": mseed, "preemption_rate": preempt, "features": features}
+                "miri_seed": mseed, "preemption_rate": preempt, "features": features, "model": model}
         for rec in r["lines"]:
             if rec.get("type") == "summary":
                 rec["scenario"] = scenario
@@ -139,7 +143,8 @@ def run(prop, jobs, timeout=1500):
 
 def replay_file(path):
     rec = json.load(open(path))
-    job = (rec["scenario"], rec["seed"], rec["from"], rec["to"], rec["miri_seed"], rec["preemption_rate"], rec["features"])
+    job = (rec["scenario"], rec["seed"], rec["from"], rec["to"], rec["miri_seed"], rec["preemption_rate"], rec["features"],
+           rec.get("model", "tb"))
     warm(rec["features"])
     r = run_one(job, 1500)
     prop = rec.get("property", "C11")
